@@ -905,7 +905,8 @@ class Sim11:
             first_filled = getattr(self, "filled_in", None)
             self.filled_in = None
             after2 = o1_describe(robj2, rreg2)
-            self.check_o1(before, after2, g2rt, build, label=route + ">" + gen2["route"])
+            same2 = self.check_o1(before, after2, g2rt, build, label=route + ">" + gen2["route"])
+            self.check_identity_and_hash(obj, reg, robj2, rreg2, route + ">" + gen2["route"], same2)
             if getattr(self, "filled_in", None):
                 remove_filled_in(rreg2, self.filled_in)
             self.filled_in = (self.filled_in or set()) | (first_filled or set()) or None
